@@ -6,8 +6,27 @@ pub(crate) struct Infohash {
 }
 
 impl Infohash {
+  /// Maximum nesting depth accepted when decoding arbitrary bencode. Matches
+  /// the limit of the typed metainfo decoder, and keeps decoding, re-encoding
+  /// and dropping of the decoded value from exhausting the stack.
+  const MAX_DEPTH: usize = 2048;
+
+  /// Decode arbitrary bencode with a bounded nesting depth.
+  pub(crate) fn decode_value(data: &[u8]) -> Result<Value<'static>, bendy::decoding::Error> {
+    let mut decoder = bendy::decoding::Decoder::new(data).with_max_depth(Self::MAX_DEPTH);
+
+    let value = match decoder.next_object()? {
+      Some(object) => Value::decode_bencode_object(object)?,
+      // Empty input: nothing to recurse into, let `from_bencode` report the
+      // unexpected end of input.
+      None => return Value::from_bencode(data),
+    };
+
+    Ok(value)
+  }
+
   pub(crate) fn from_input(input: &Input) -> Result<Infohash, Error> {
-    let value = Value::from_bencode(&input.data).map_err(|error| Error::MetainfoDecode {
+    let value = Self::decode_value(&input.data).map_err(|error| Error::MetainfoDecode {
       input: input.source.clone(),
       error,
     })?;
